@@ -4,9 +4,11 @@
     neighbour list, every edge points away from the root (rank), no shared child, every node
     reachable from the root -- and refines the tree model through [abs] (the DumpTree walk). *)
 From Coq Require Import String ZArith QArith Bool Arith List.
-From GT Require Import Base.UTree Model.Reroot Model.Prune Model.Collapse Model.TreeGen Model.Heap
+From GT Require Import Base.UTree Model.Reroot Model.Prune Model.Collapse Model.TreeGen Model.NNI Model.Heap Model.HeapSpec Model.HeapEdit
      Proofs.HeapBase Proofs.HeapRep Proofs.HeapGood Proofs.HeapGoodRep Proofs.HeapOf Proofs.HeapReroot
-     Proofs.HeapUnroot Proofs.HeapGraft Proofs.HeapCollapse Proofs.HeapPrune.
+     Proofs.HeapUnroot Proofs.HeapGraft Proofs.HeapCollapse Proofs.HeapPrune
+     Proofs.HeapNocheck Proofs.HeapGraftSq Proofs.HeapPermute Proofs.HeapPruneTotal Proofs.HeapLoops Proofs.HeapRerootL
+     Proofs.HeapNNI Proofs.HeapNNIMain.
 Import ListNotations.
 Local Close Scope Q_scope.
 Local Open Scope string_scope.
@@ -326,22 +328,7 @@ Example C03Heap_run_remove_tip :
 Proof. vm_compute. reflexivity. Qed.
 Print Assumptions C03Heap_run_remove_tip.
 
-(** GraftTipOnEdge read on trees: the k-th branch (Edges() order) l -e-> c becomes
-    l -e/2-> [graft_node](tip through a branch of length 1, c through a branch of length e/2) *)
-Definition halve_e (e : einfo) : einfo := mkE (half (elen e)) (esup e) (epv e) (ecom e).
-Fixpoint ugrafts (tip : utree) (t : utree) : list utree :=
-  match t with
-  | UNode n c sl =>
-    (fix go (pre : list slot) (l : list slot) : list utree :=
-       match l with
-       | [] => []
-       | None :: r => go (pre ++ [None])%list r
-       | Some (e, ch) :: r =>
-         (UNode n c (pre ++ Some (halve_e e, graft_node (mkE 1%Q nilv nilv []) (mkE (half (elen e)) nilv nilv []) tip ch) :: r)%list
-          :: map (fun ch' => UNode n c (pre ++ Some (e, ch') :: r)%list) (ugrafts tip ch)
-          ++ go (pre ++ [Some (e, ch)])%list r)%list
-       end) [] sl
-  end.
+(** GraftTipOnEdge read on trees: [ugrafts] / [ugraft] of Model/HeapSpec.v *)
 Definition chk_graft (t : utree) (k : nat) : bool :=
   let h := heap_of t in
   match nth_error (edge_ids h) k, nth_error (ugrafts (lf "new") t) k with
@@ -357,3 +344,149 @@ Example C03Heap_run_graft :
   forallb (chk_graft (rr_at hx_deep 3)) (seq 0 9) = true.
 Proof. vm_compute. reflexivity. Qed.
 Print Assumptions C03Heap_run_graft.
+
+(** * second round *)
+
+(** reroot_nocheck = Reroot on a good heap (every node of the heap is in the tree) *)
+Theorem C03Heap_reroot_nocheck_eq : forall h n, Good h -> reroot_nocheck_heap n h = reroot_heap n h.
+Proof. exact reroot_nocheck_eq. Qed.
+Print Assumptions C03Heap_reroot_nocheck_eq.
+
+Theorem C03Heap_reroot_nocheck_good : forall h n h', Good h -> reroot_nocheck_heap n h = HOk h' -> Good h' /\ hroot h' = n.
+Proof. exact reroot_nocheck_good. Qed.
+Print Assumptions C03Heap_reroot_nocheck_good.
+
+Theorem C03Heap_reroot_nocheck_refines : forall h t ns j n, Good h -> abs h = Some t ->
+  tree_nodes h = HOk ns -> nth_error ns j = Some n ->
+  match reroot_nocheck_heap n h with
+  | HOk h' => exists t', reroot t j = Ok t' /\ abs h' = Some t'
+  | HErr m => reroot t j = Err m
+  | HPanic => False
+  end.
+Proof. exact reroot_nocheck_refines. Qed.
+Print Assumptions C03Heap_reroot_nocheck_refines.
+
+(** the refinement square of GraftTipOnEdge: grafting a new tip on the k-th branch (Edges()
+    order = order of the edge ids in the dump) is [ugraft name k] (Model/HeapSpec.v, built on
+    TreeGen.graft_node) on the tree; it never fails *)
+Theorem C03Heap_graft_square : forall h t name k e, Good h -> abs h = Some t ->
+  (exists lt, dump h = Some lt /\ nth_error (leids lt) k = Some e) ->
+  exists tip ne ne2 nn h' t', graft_new_tip name e h = HOk (tip, ne, ne2, nn, h') /\
+    Good h' /\ ugraft name k t = Some t' /\ abs h' = Some t'.
+Proof. exact graft_new_tip_square. Qed.
+Print Assumptions C03Heap_graft_square.
+
+(** permuting the slots of one node -- neigh and br TOGETHER -- keeps the heap good *)
+Theorem C03Heap_permute_good : forall h n hn hn', Good h -> alookup n (hnodes h) = Some hn ->
+  length (hneigh hn') = length (hbr hn') -> Permutation.Permutation (slots_of hn) (slots_of hn') ->
+  Good (set_node h n hn').
+Proof. exact Good_permute. Qed.
+Print Assumptions C03Heap_permute_good.
+
+Theorem C03Heap_rotate_neighbors_good : forall h n cs h', Good h -> rotate_neighbors_heap n cs h = HOk h' -> Good h'.
+Proof. exact rotate_neighbors_good. Qed.
+Print Assumptions C03Heap_rotate_neighbors_good.
+
+Theorem C03Heap_rotate_neighbors_total : forall h n cs, Good h -> alookup n (hnodes h) <> None ->
+  exists h', rotate_neighbors_heap n cs h = HOk h'.
+Proof. exact rotate_neighbors_total. Qed.
+Print Assumptions C03Heap_rotate_neighbors_total.
+
+Theorem C03Heap_rotate_internal_nodes_good : forall cs h h', Good h -> rotate_internal_nodes_heap cs h = HOk h' -> Good h'.
+Proof. exact rotate_internal_nodes_good. Qed.
+Print Assumptions C03Heap_rotate_internal_nodes_good.
+
+(** ... permuting only the neigh array does not: the same swap applied to neigh alone on the
+    root of the 5-tip tree gives a heap whose dump fails (a node is reached twice) *)
+Example C03Heap_neg_rotate_one_array :
+  match rotate_neighbors_heap 0 [0; 0; 1] (heap_of hx_start), rotate_neigh_only 0 [0; 0; 1] (heap_of hx_start) with
+  | HOk h1, HOk h2 =>
+    abs_is h1 (UNode "" [] (fst (rotate_slots 0 3 [0; 0; 1] (uslots hx_start)))) &&
+    match abs h2 with None => true | Some _ => false end
+  | _, _ => false
+  end = true /\
+  forall h2, rotate_neigh_only 0 [0; 0; 1] (heap_of hx_start) = HOk h2 -> ~ Good h2.
+Proof.
+  split; [vm_compute; reflexivity|]. intros h2 E G. destruct (Good_abs h2 G) as [t [Ha _]].
+  revert Ha. injection E as <-. vm_compute. discriminate.
+Qed.
+Print Assumptions C03Heap_neg_rotate_one_array.
+
+(** removeTip never panics on a good heap: success (good heap) or one of its error messages *)
+Theorem C03Heap_remove_tip_total : forall h name tip, Good h -> alookup tip (hnodes h) <> None ->
+  (exists h', remove_tip_heap name tip h = HOk h' /\ Good h') \/ (exists m, remove_tip_heap name tip h = HErr m).
+Proof. exact remove_tip_heap_spec. Qed.
+Print Assumptions C03Heap_remove_tip_total.
+
+(** the loops: RemoveEdges over a list of branches computed beforehand, RemoveTips over the tip
+    snapshot *)
+Theorem C03Heap_remove_edges_good : forall rr rt es h h', Good h -> remove_edges_heap rr rt es h = HOk h' -> Good h'.
+Proof. exact remove_edges_heap_good. Qed.
+Print Assumptions C03Heap_remove_edges_good.
+
+Theorem C03Heap_remove_tips_good : forall tips h h', Good h -> remove_tips_heap tips h = HOk h' -> Good h'.
+Proof. exact remove_tips_heap_good. Qed.
+Print Assumptions C03Heap_remove_tips_good.
+
+(** NNI (tree/rearrange.go): Apply on a proposal newNNI(t, e.Left(), e.Right(), cross) for a
+    branch between two nodes of degree 3 -- what NNIRearranger.Rearrange produces -- succeeds and
+    keeps the heap good (the central branch is re-oriented exactly when the moved neighbour of
+    n1 is its parent); Undo after it succeeds and keeps the heap good *)
+Theorem C03Heap_nni_apply_good : forall h n1 n2 cross q hn1 hn2 ec edc, Good h ->
+  alookup n1 (hnodes h) = Some hn1 -> alookup n2 (hnodes h) = Some hn2 ->
+  In (n2, ec) (slots_of hn1) -> alookup ec (hedges h) = Some edc -> hleft edc = n1 ->
+  length (hneigh hn1) = 3 -> length (hneigh hn2) = 3 ->
+  new_nni_heap h n1 n2 cross = HOk q ->
+  exists h', nni_apply_heap q h = HOk h' /\ Good h'.
+Proof. exact nni_apply_good. Qed.
+Print Assumptions C03Heap_nni_apply_good.
+
+Theorem C03Heap_nni_apply_undo_good : forall h n1 n2 cross q hn1 hn2 ec edc, Good h ->
+  alookup n1 (hnodes h) = Some hn1 -> alookup n2 (hnodes h) = Some hn2 ->
+  In (n2, ec) (slots_of hn1) -> alookup ec (hedges h) = Some edc -> hleft edc = n1 ->
+  length (hneigh hn1) = 3 -> length (hneigh hn2) = 3 ->
+  new_nni_heap h n1 n2 cross = HOk q ->
+  exists h' h'', nni_apply_heap q h = HOk h' /\ Good h' /\ nni_undo_heap q h' = HOk h'' /\ Good h''.
+Proof. exact nni_apply_undo_good. Qed.
+Print Assumptions C03Heap_nni_apply_undo_good.
+
+(** the heap NNI agrees with Model/NNI.v on every proposal of three trees: Apply, then Undo
+    (back to the original tree) *)
+Definition chk_nni (t : utree) (r : nni) : bool :=
+  let h := heap_of t in
+  match dump h with
+  | Some lt =>
+    match lnode_at lt (r_path r) with
+    | Some (LNode n1 _ _ _) =>
+      match alookup n1 (hnodes h) with
+      | Some hn1 =>
+        match nth_error (hneigh hn1) (r_k r) with
+        | Some n2 =>
+          match new_nni_heap h n1 n2 (r_cross r) with
+          | HOk q =>
+            match nni_apply_heap q h, apply r t with
+            | HOk h1, Some t1 =>
+              abs_is h1 t1 &&
+              match nni_undo_heap q h1, undo r t1 with
+              | HOk h2, Some t2 => abs_is h2 t2 && abs_is h2 t
+              | _, _ => false
+              end
+            | _, _ => false
+            end
+          | _ => false
+          end
+        | None => false
+        end
+      | None => false
+      end
+    | None => false
+    end
+  | None => false
+  end.
+Definition all_nni (t : utree) : bool := forallb (chk_nni t) (nni_list t).
+
+Example C03Heap_run_nni :
+  all_nni hx_start && all_nni hx_deep && all_nni (rr_at hx_deep 3) && all_nni (rr_at hx_deep 6) && all_nni (rr_at hx_start 4) = true /\
+  length (nni_list hx_deep) = 6.
+Proof. vm_compute. split; reflexivity. Qed.
+Print Assumptions C03Heap_run_nni.
